@@ -81,7 +81,7 @@ NUMERIC = {
     "Bin": ["low", "high", "entries"],
     "SparselyBin": ["binWidth", "entries", "origin"],
 }
-JUNK_NUM = ["abc", [], {}, None, ""]
+JUNK_NUM = ["abc", [], {}, None, "", "2.0", " 2 ", "1_0", "+1", "2e0", "0x10"]  # incl. strings a lenient float()/int() would parse
 VOCAB = ["entries", "data", "type", "version", "sub:type", "w", "v", "center", "atleast", "values", "bins", "name", "sum", "low", "origin", "nanflow"]
 
 
@@ -186,7 +186,7 @@ def mutants(sp, doc):
     # header
     for key in ("type", "data", "version"):
         out.append(("header:delete-" + key, [key], _del(doc, [key])))
-    for v, nm in (("99.99", "incompatible"), (5, "non-string"), ("abc", "non-numeric")):
+    for v, nm in (("99.99", "incompatible"), ("2.0", "newer-major"), ("2.1", "newer-major-same-minor"), ("1.2", "newer-minor"), (5, "non-string"), ("abc", "non-numeric")):
         out.append(("header:version-" + nm, ["version"], _set(doc, ["version"], v)))
     for v, nm in ((5, "non-string"), ("NoSuchPrimitive", "unregistered"), ([], "list")):
         out.append(("header:type-" + nm, ["type"], _set(doc, ["type"], v)))
@@ -197,8 +197,9 @@ def mutants(sp, doc):
     for path, role, info in positions(sp, doc["data"], ["data"]):
         cur = _get(doc, path)
         if role == "count":
-            for j in ("abc", [], {}, None, ""):
+            for j in ("abc", [], {}, None, "", "2.0", "1_0", " 2 "):
                 out.append(("count:retype", path, _set(doc, path, j)))
+            out.append(("count:boolean", path, _set(doc, path, True)))
             out.append(("entries:-1", path, _set(doc, path, -1)))
             for j, nm in ((-0.5, "negative-float"), (-1e-300, "negative-tiny"), ("-inf", "minus-infinity-spelled")):
                 out.append(("entries:" + nm, path, _set(doc, path, j)))
@@ -218,6 +219,9 @@ def mutants(sp, doc):
         elif role == "number":
             for j in JUNK_NUM:
                 out.append(("number:retype", path, _set(doc, path, j)))
+            if path[-1] not in ("min", "max") and not isinstance(cur, bool):
+                # a JSON boolean where a number is expected (min / max excepted: a boolean-valued quantity puts one there)
+                out.append(("number:boolean", path, _set(doc, path, True)))
         elif role == "name":
             for j in (5, 0, [], {}, False, 2.5):
                 out.append(("name:retype", path, _set(doc, path, j)))
@@ -230,9 +234,14 @@ def mutants(sp, doc):
         elif role == "list":
             out.append(("list:to-dict", path, _set(doc, path, {})))
             out.append(("list:to-scalar", path, _set(doc, path, 3)))
+            out.append(("list:to-null", path, _set(doc, path, None)))
+            if info in ("Bin", "CentrallyBin", "IrregularlyBin", "Stack", "Index", "Branch"):
+                # these lists are never empty in a document toJson writes (a binning has >= 1 bin, a collection >= 1 member)
+                out.append(("list:emptied", path, _set(doc, path, [])))
         elif role == "map":
             out.append(("map:to-list", path, _set(doc, path, [])))
             out.append(("map:to-scalar", path, _set(doc, path, 3)))
+            out.append(("map:to-null", path, _set(doc, path, None)))
         elif role == "intkey":
             par = path[:-1]
             m = copy.deepcopy(_get(doc, par))
@@ -300,13 +309,23 @@ def run_case(i, rng, tier):
         if sig in seen_fail:
             continue
         seen_fail.add(sig)
-        failures.append(C.fail(None, "malformed document accepted (%s at %s): %s" % (kind, "/".join(map(str, path)), what), mutation=kind, path=path, mutant_value=S.jsonable(_safe(m, path)), **wit0))
+        key = None
+        if kind in ("number:boolean", "count:boolean"):
+            # known-finding candidate: every loader tests numbers with isinstance(x, numbers.Real), which a JSON boolean
+            # passes.  Attribute it only if the loader did exactly that - read true as the number 1 (twin document).
+            try:
+                twin = json.loads(json.dumps(Factory.fromJson(_set(doc, path, 1.0)).toJson()))
+                if not O.diff(twin, json.loads(json.dumps(r.toJson())), 0.0, exact=True):
+                    key = "json-boolean-read-as-number"
+            except Exception:  # noqa: BLE001
+                pass
+        failures.append(C.fail(key, "malformed document accepted (%s at %s): %s" % (kind, "/".join(map(str, path)), what), mutation=kind, path=path, mutant_value=S.jsonable(_safe(m, path)), **wit0))
     return {
         "digest": None,
         "digests": digests,
         "evaluations": max(len(digests), 1),
         "nontrivial": bool(digests),
-        "failures": failures[:6],
+        "failures": sorted(failures, key=lambda f_: f_["key"] is not None)[:6],  # unlisted ones first
         "counters": counters,
         "sets": sets,
         "sample": {"stratum": label, "tree": S.describe(sp), "document": doc if len(json.dumps(doc)) < 500 else json.dumps(doc)[:500] + "...", "n_mutants": len(digests), "example_mutations": [[k, "/".join(map(str, p))] for k, p, _ in ms[8:14]]},
@@ -326,7 +345,7 @@ def _role_sig(path):
 
 def conclusive(agg):
     out = []
-    want = ["header:delete-type", "header:version-incompatible", "count:retype", "entries:-1", "entries:negative-float", "entries:negative-tiny", "entries:minus-infinity-spelled", "struct:delete-key", "struct:add-key", "struct:fragment-retype", "number:retype", "name:retype", "typename:retype", "typename:unregistered", "list:to-dict", "map:to-list", "sparse-key:non-integer", "element:replace", "element:missing-key"]
+    want = ["header:delete-type", "header:version-incompatible", "count:retype", "count:boolean", "number:boolean", "list:to-null", "map:to-null", "list:emptied", "header:version-newer-major", "header:version-newer-minor", "entries:-1", "entries:negative-float", "entries:negative-tiny", "entries:minus-infinity-spelled", "struct:delete-key", "struct:add-key", "struct:fragment-retype", "number:retype", "name:retype", "typename:retype", "typename:unregistered", "list:to-dict", "map:to-list", "sparse-key:non-integer", "element:replace", "element:missing-key"]
     mk = agg.sets.get("mutation_kinds", set())
     miss = [w for w in want if w not in mk]
     if miss:
